@@ -374,7 +374,8 @@ class CloneReplayer:
             self.kinds[(c["op"], exp, "raise" if got != "ok" else "ok", after_clone)] += 1
             # (SetConst on a value that already has a constant swaps the tensor: the projection stays, serializations do
             # not - the next row must not inherit that)
-            dirty = real != pre_obs or (c["op"] == "SetConst" and got == "ok")
+            # ... and a Clone row annotates the nodes of its source before cloning, whether the clone succeeds or not
+            dirty = real != pre_obs or (c["op"] == "SetConst" and got == "ok") or c["op"] == "Clone"
             if c["op"] == "Clone":
                 if got == "ok":
                     if u.shared_on_clone:
